@@ -1,5 +1,7 @@
-"""C13 (a) module registry: add / FindModule lookups, (b) file chooser: findFile / findInDir.
-Part (c) of the property (include = inline) is not covered here.
+"""C13 (a) module registry: add / FindModule lookups, (b) file chooser: findFile / findInDir,
+(c) include = inline: a module split over submodules (nested includes) vs. the unsplit module, on the implementation
+(metamorphic) and, for the typedef/identity-free subset, on the core resolver model (needs the `resolve` command:
+VERIF_PARTS=c13,schema while developing).
 
 Every case is run on the implementation (harness/go/c13.go) and on the extracted model
 (harness/ml/cmd_c13.ml); the model's line carries, after " | ", what the proved specification
@@ -132,6 +134,28 @@ NEAR = CORE + ["foo.yang.bak", "fo.yang", "fo@2025-01-01.yang", "foo@2020-01-01.
 DIRNAMES = ["a", "z", "foo", "g", "foo!", "foo-x", "foo0", "sub", "foo.yang", "foo@2024-01-01.yang"]
 
 
+IDENT_NAMES = ["acme.types", "a.b", "a-b", "a_b", "x1.y2-z", "a..b", "a.b.c", "ietf-if.v2", "_a.b", "a-z.0-9", "m."]
+
+
+def lookalikes(name):
+    """names that a pattern built from [name] without quoting would also accept, and plain near misses"""
+    out = []
+    for ch in "X-_0a":
+        out.append(name.replace(".", ch))
+    for i, c in enumerate(name):
+        if c in ".-_":
+            for ch in "Xz_-.":
+                if ch != c:
+                    out.append(name[:i] + ch + name[i + 1:])
+    out += [name + "x", "x" + name, name[:-1], name.upper()]
+    seen, res = set(), []
+    for o in out:
+        if o and o != name and o not in seen and "/" not in o:
+            seen.add(o)
+            res.append(o)
+    return res
+
+
 def rand_dir(rnd, depth, pool):
     ents, used = [], set()
     for _ in range(rnd.choice([0, 1, 1, 2, 3, 4])):
@@ -168,6 +192,30 @@ def gen_findfile(tier, rnd):
                 for dots in (False, True):
                     cases.append(ff_case([("cwd", []), ("p0", d)], ["cwd"], [(["p0"], dots)], "foo"))
                 cases.append(ff_case([("cwd", d)], ["cwd"], [], "foo"))
+    # module names with the other characters legal in a YANG identifier ('.', '-', '_', digits): '.' is a wildcard and
+    # '-' a range operator for anyone who builds a pattern from the name; look-alike files in which each such character
+    # is replaced, in the same directory and in an earlier one, with and without the exact file and a real dated file
+    for name in IDENT_NAMES:
+        alikes = lookalikes(name)
+        real = name + "@2018-03-04.yang"
+        for la in alikes:
+            dated = la + "@2022-05-06.yang"
+            for exact in (False, True):
+                for with_real in (False, True):
+                    d = [(dated, None)] + ([(name + ".yang", None)] if exact else []) + ([(real, None)] if with_real else [])
+                    later = [(name + "@2001-01-01.yang", None)]
+                    for dots in (False, True):
+                        cases.append(ff_case([("cwd", []), ("p0", d)], ["cwd"], [(["p0"], dots)], name))
+                        cases.append(ff_case([("cwd", []), ("p0", [(dated, None), (la + ".yang", None)]), ("p1", later)], ["cwd"],
+                                             [(["p0"], dots), (["p1"], False)], name))
+                    cases.append(ff_case([("cwd", d), ("p0", later)], ["cwd"], [(["p0"], False)], name))
+        # all look-alikes at once, nested, random order
+        for _ in range(3):
+            d = [(la + "@20%02d-01-01.yang" % (10 + i), None) for i, la in enumerate(alikes)]
+            rnd.shuffle(d)
+            sub = [("sub", d[: len(d) // 2])]
+            cases.append(ff_case([("cwd", []), ("p0", d[len(d) // 2:] + sub), ("p1", [(real, None)])], ["cwd"],
+                                 [(["p0"], rnd.random() < 0.5), (["p1"], False)], name))
     # random nested layouts
     lookups = ["foo"] * 12 + ["foobar", "fo", "foo@2020-01-01", "foo.yang", "foo@2020-01-01.yang", "zz"]
     for _ in range(4000 if tier == "quick" else 60000):
@@ -187,6 +235,368 @@ def gen_findfile(tier, rnd):
         cwd = ["cwd"] if rnd.random() < 0.85 else ["p0"]
         cases.append(ff_case(tree, cwd, path, rnd.choice(lookups)))
     return cases
+
+
+# ------------------------------------------------------------------- (c) include = inline
+# A module is generated as ONE list of top-level statements, then split over 1..3 submodules with nested
+# includes.  Statements are schema_gen node tuples plus ('typedef', name, typetext) and ('identity', name, [bases]);
+# leaf types may be typedef names or 'identityref { base p:iN; }'.  Oracle: the implementation alone, run on the
+# split set and on the unsplit module, must give the same verdict, the same module tree, the same identity value
+# lists and the same resolved leaf types.  For the typedef/identity-free subset the core model (resolve) is run on
+# both abstract schemas as well.
+import json
+import re
+
+from props import schema_gen as sg
+
+PFX, MOD, NS = "p", "m", "urn:m"
+
+
+def _refs_of(node):
+    """(kind, name) of the top-level definitions a statement refers to: groupings used, typedefs and identity bases"""
+    out = set()
+
+    def ty(t):
+        m = re.match(r"identityref \{ base (?:p:)?(\w+); \}", t)
+        if m:
+            out.add(("identity", m.group(1)))
+        elif t not in sg.BUILTINS:
+            out.add(("typedef", t.split(":")[-1].split(" ")[0]))
+
+    def walk(n):
+        k = n[0]
+        if k == "typedef":
+            if n[2].split(" ")[0] not in sg.BUILTINS:
+                out.add(("typedef", n[2].split(":")[-1].split(" ")[0]))
+        elif k == "identity":
+            for b in n[2]:
+                out.add(("identity", b.split(":")[-1]))
+        elif k in ("leaf", "leaflist"):
+            ty(n[2])
+        elif k == "uses":
+            out.add(("grouping", n[1].split(":")[-1]))
+        elif k == "rpc":
+            for b in (n[3], n[4]):
+                for c in b or []:
+                    walk(c)
+        elif k == "any":
+            pass
+        else:
+            for c in n[-1]:
+                walk(c)
+    walk(node)
+    return out
+
+
+def _retype(rnd, body, types):
+    """replace some builtin leaf types by references to typedefs / identities"""
+    out = []
+    for n in body:
+        k = n[0]
+        if k == "leaf" and types and rnd.random() < 0.5:
+            out.append((k, n[1], rnd.choice(types), n[3], n[4], None, n[6]))
+        elif k == "leaflist" and types and rnd.random() < 0.4:
+            out.append((k, n[1], rnd.choice(types), n[3], [], n[5], n[6]))
+        elif k in ("container", "case", "notification", "grouping", "list", "choice"):
+            out.append(n[:-1] + (_retype(rnd, n[-1], types),))
+        elif k == "rpc":
+            out.append(n[:3] + (None if n[3] is None else _retype(rnd, n[3], types), None if n[4] is None else _retype(rnd, n[4], types)))
+        else:
+            out.append(n)
+    return out
+
+
+def gen_family(rnd, rich):
+    """-> (items, augments): items = top-level statements in written order, augments = [(path, body)]"""
+    g = sg.Gen(rnd, n_modules=1)
+    items, types, idents, groupings = [], [], [], []
+    if rich:
+        for i in range(rnd.randint(0, 3)):
+            base = rnd.choice(["string", "int32 { range \"1..10\"; }", "uint8", "boolean"] +
+                              [rnd.choice([t, PFX + ":" + t]) for t in types if " " not in t and ":" not in t])
+            items.append(("typedef", "t%d" % i, base))
+            types.append("t%d" % i)
+        for i in range(rnd.randint(0, 4)):
+            bases = [rnd.choice([b, PFX + ":" + b]) for b in rnd.sample(idents, min(len(idents), rnd.choice([0, 1, 1, 2])))]
+            items.append(("identity", "i%d" % i, bases))
+            idents.append("i%d" % i)
+    tyrefs = [rnd.choice([t, PFX + ":" + t]) for t in types] + ["identityref { base %s:%s; }" % (PFX, i) for i in idents]
+    for k in range(rnd.randint(0, 3)):
+        g.gid += 1
+        usable = [rnd.choice([x, PFX + ":" + x]) for x in groupings]
+        body = _retype(rnd, g.body(2, usable, allow_action=True), tyrefs)
+        name = g.name("g")
+        items.append(("grouping", g.gid, name, body))
+        groupings.append(name)
+    usable = [rnd.choice([x, PFX + ":" + x]) for x in groupings]
+    for _ in range(rnd.randint(2, 5)):
+        items += _retype(rnd, g.body(2, usable, allow_action=False, n=1), tyrefs)
+    if rnd.random() < 0.3:
+        items.append(("rpc", False, g.name("rpc"), _retype(rnd, g.body(1, usable, False), tyrefs), None))
+    if rnd.random() < 0.25:       # a duplicate top-level name: both sides must report it
+        names = [n[1] for n in items if n[0] in ("leaf", "container", "list")]
+        if names:
+            items.append(g.leaf(rnd.choice(names)))
+    rnd.shuffle(items)
+    # definitions need not precede their uses in YANG; keep the shuffled order
+    whole = dict(name=MOD, prefix=PFX, ns=NS, belongs=None, imports=[], includes=[],
+                 body=[n for n in items if n[0] not in ("typedef", "identity")], augments=[], deviations=[])
+    augments = []
+    paths = [p for p in sg.expand_paths([whole], whole, None) if p[1] in ("container", "list", "case", "notification", "input")]
+    for _ in range(rnd.choice([0, 1, 1, 2])):
+        if not paths:
+            break
+        steps, kind, _n = rnd.choice(paths)
+        body = _retype(rnd, g.body(1, usable, allow_action=False, n=rnd.randint(1, 2)), tyrefs)
+        augments.append(("/" + "/".join(PFX + ":" + s_ for s_ in steps), body))
+    return items, augments
+
+
+def split_family(rnd, items, augments):
+    """-> parts: list of dict(items, augments, includes) ; part 0 is the module, parts 1.. the submodules"""
+    k = rnd.randint(1, 3)
+    where = {}                       # index of the statement -> part
+    stm = [("item", n) for n in items] + [("aug", a) for a in augments]
+    for i in range(len(stm)):
+        where[i] = rnd.randint(0, k)
+    defs = {}
+    for i, (kind, n) in enumerate(stm):
+        if kind == "item" and n[0] in ("typedef", "identity"):
+            defs[(n[0], n[1])] = i
+        elif kind == "item" and n[0] == "grouping":
+            defs[("grouping", n[2])] = i
+    refs = {}
+    for i, (kind, n) in enumerate(stm):
+        if kind == "item":
+            refs[i] = _refs_of(n)
+        else:
+            refs[i] = set()
+            for c in n[1]:
+                refs[i] |= _refs_of(c)
+    # a submodule can only name what it declares itself or what a submodule it includes declares; includes go from
+    # lower to higher part numbers (no cycles): move definitions up until every reference obeys that
+    changed = True
+    while changed:
+        changed = False
+        for i in range(len(stm)):
+            x = where[i]
+            if x == 0:
+                continue
+            for r in refs[i]:
+                d = defs.get(r)
+                if d is not None and d != i and (where[d] == 0 or where[d] < x):
+                    where[d] = x
+                    changed = True
+    parts = [dict(items=[], augments=[], includes=set()) for _ in range(k + 1)]
+    for i, (kind, n) in enumerate(stm):
+        (parts[where[i]]["items"] if kind == "item" else parts[where[i]]["augments"]).append(n)
+        for r in refs[i]:
+            d = defs.get(r)
+            if d is not None and where[d] not in (0, where[i]):
+                parts[where[i]]["includes"].add(where[d])
+
+    def reach(x, seen):
+        for y in sorted(parts[x]["includes"]):
+            if y not in seen:
+                seen.add(y)
+                reach(y, seen)
+        return seen
+    # sometimes rely on nested includes only: drop a direct include that is reachable through another one
+    for x in range(k + 1):
+        for y in sorted(parts[x]["includes"]):
+            if rnd.random() < 0.35:
+                parts[x]["includes"].discard(y)
+                if y not in reach(x, set()):
+                    parts[x]["includes"].add(y)
+    for y in range(1, k + 1):
+        if y not in reach(0, set()):
+            lower = [x for x in range(0, y) if x == 0 or x in reach(0, set())]
+            parts[rnd.choice(lower)]["includes"].add(y)
+    for x in range(k + 1):
+        for y in range(x + 1, k + 1):
+            if rnd.random() < 0.15:
+                parts[x]["includes"].add(y)
+    return parts
+
+
+def _mod_dict(name, belongs, includes, items, augments):
+    return dict(name=name, prefix=PFX, ns=NS if belongs is None else "", belongs=belongs, imports=[], includes=includes,
+                body=[n for n in items if n[0] not in ("typedef", "identity")],
+                extra=[n for n in items if n[0] in ("typedef", "identity")], augments=augments, deviations=[])
+
+
+def family_schemas(parts):
+    """split schema (module + submodules) and the unsplit module, as schema_gen module dicts (+ 'extra' statements)"""
+    names = [MOD] + ["%ss%d" % (MOD, i) for i in range(1, len(parts))]
+    split = []
+    for i, p in enumerate(parts):
+        incs = sorted(p["includes"])
+        split.append(_mod_dict(names[i], None if i == 0 else MOD, [names[y] for y in incs], p["items"], p["augments"]))
+    order, seen = [], set()
+
+    def dfs(x):
+        for y in sorted(parts[x]["includes"]):
+            if y not in seen:
+                seen.add(y)
+                order.append(y)
+                dfs(y)
+    dfs(0)
+    its, augs = list(parts[0]["items"]), list(parts[0]["augments"])
+    for y in order:
+        its += parts[y]["items"]
+        augs += parts[y]["augments"]
+    return split, [_mod_dict(MOD, None, [], its, augs)]
+
+
+_IDREF = re.compile(r"(type identityref \{ base [^;]+; \});")
+
+
+def render_family_module(m):
+    txt = sg.render_module(m)
+    txt = _IDREF.sub(r"\1", txt)
+    extra = ""
+    for n in m.get("extra", []):
+        if n[0] == "typedef":
+            t = n[2] if n[2].endswith("}") else n[2] + ";"
+            extra += "  typedef %s { type %s }\n" % (n[1], t) if n[2].endswith("}") else "  typedef %s { type %s }\n" % (n[1], t)
+        else:
+            extra += "  identity %s { %s}\n" % (n[1], "".join("base %s; " % b for b in n[2]))
+    # definitions go right after the header (before the first data statement): after the last include/prefix line
+    lines = txt.split("\n")
+    at = 0
+    for i, l in enumerate(lines):
+        if l.startswith("  include ") or l.startswith("  prefix ") or l.startswith("  belongs-to ") or l.startswith("  namespace "):
+            at = i + 1
+    return "\n".join(lines[:at]) + "\n" + extra + "\n".join(lines[at:])
+
+
+def go_family_case(schema):
+    toks = ["process", "-", ",".join(["L%d" % i for i in range(len(schema))] + ["P"]), str(len(schema))]
+    for m in schema:
+        toks += [sg.hx(m["name"] + ".yang"), sg.hx(render_family_module(m))]
+    return " ".join(toks)
+
+
+def _nid(s):
+    """identity key without the owner/sub spelling of submodule-defined identities"""
+    return re.sub(r"^([^/:]+)/[^:]+:", r"\1:", s)
+
+
+def _ctype(t):
+    if t is None:
+        return None
+    return dict(name=t["name"], kind=t["kind"], units=t.get("units"), default=t.get("default"), hasdef=t.get("hasdef"),
+                fd=t.get("fd"), range=t.get("range"), length=t.get("length"), pattern=t.get("pattern"), enum=t.get("enum"),
+                bit=t.get("bit"), path=t.get("path"), idbase=_nid(t["idbase"]) if t.get("idbase") else None,
+                idvalues=[_nid(v) for v in t.get("idvalues") or []], union=[_ctype(u) for u in t.get("union") or []])
+
+
+def _cnode(n):
+    if n is None:
+        return None
+    return dict(name=n["name"], kind=n["kind"], config=n["config"], mandatory=n["mandatory"], default=n.get("default"),
+                units=n.get("units"), key=n.get("key"), list=n.get("list"), ns=n["ns"], instmod=n["instmod"], ro=n["ro"],
+                defvals=n.get("defvals"), prefix=n.get("prefix"), hasdir=n["hasdir"], hasrpc=n.get("hasrpc"),
+                type=_ctype(n.get("type")), input=_cnode(n.get("input")), output=_cnode(n.get("output")),
+                children=sorted((_cnode(c) for c in n.get("children") or []), key=lambda c: c["name"]))
+
+
+def family_obs(line):
+    """what the property compares: verdict, tree of module m, identity value lists, all by name"""
+    if not line.startswith("{"):
+        return dict(status=line.split(" ")[0][:40])
+    j = json.loads(line)
+    if any(l.startswith("err") for l in j["loads"]):
+        return dict(status="err", where="load")
+    run = j["runs"][-1]
+    if run["errors"]:
+        return dict(status="err", where="process", errors=run["errors"][:3])
+    tree, idents = None, {}
+    for m in run["modules"]:
+        if m["name"] == MOD and not m["sub"]:
+            tree = _cnode(m["tree"])
+        for i in m.get("identities") or []:
+            idents[_nid(i["name"])] = [_nid(v) for v in i["values"]]
+    return dict(status="ok", tree=tree, identities=idents, treeviol=run.get("treeviol") or [])
+
+
+def _first_diff(a, b, path=""):
+    if type(a) != type(b):
+        return "%s: %r vs %r" % (path, a, b)
+    if isinstance(a, dict):
+        for k in sorted(set(a) | set(b)):
+            d = _first_diff(a.get(k), b.get(k), path + "/" + (a.get("name") or "") + "." + k if k == "children" else path + "." + k)
+            if d:
+                return d
+        return None
+    if isinstance(a, list):
+        if len(a) != len(b):
+            return "%s: %d vs %d entries (%s | %s)" % (path, len(a), len(b), str(a)[:120], str(b)[:120])
+        for i, (x, y) in enumerate(zip(a, b)):
+            d = _first_diff(x, y, path + "[%s]" % (x.get("name") if isinstance(x, dict) else i))
+            if d:
+                return d
+        return None
+    return None if a == b else "%s: %r vs %r" % (path, a, b)
+
+
+def gen_include(tier, rnd):
+    """-> list of dict(rich, split, unsplit)"""
+    fams = []
+    for i in range(700 if tier == "quick" else 8000):
+        rich = i % 3 != 0
+        items, augments = gen_family(rnd, rich)
+        parts = split_family(rnd, items, augments)
+        split, unsplit = family_schemas(parts)
+        fams.append(dict(rich=rich, split=split, unsplit=unsplit))
+    return fams
+
+
+def run_include(res, tier, rnd, stats):
+    fams = gen_include(tier, rnd)
+    go_lines, ml_lines = [], []
+    for f in fams:
+        go_lines += [go_family_case(f["split"]), go_family_case(f["unsplit"])]
+        if not f["rich"]:
+            ml_lines += [sg.model_case(f["split"]), sg.model_case(f["unsplit"])]
+    go = lib.run_go(go_lines)
+    ml = lib.run_ml(ml_lines)
+    mi = 0
+    viol = 0
+    for k, f in enumerate(fams):
+        gs, gu = go[2 * k], go[2 * k + 1]
+        a, b = family_obs(gs), family_obs(gu)
+        stats["include_" + a["status"]] = stats.get("include_" + a["status"], 0) + 1
+        nested = any(m["belongs"] and m["includes"] for m in f["split"])
+        stats["include_nested"] += 1 if nested else 0
+        diff = None
+        if a["status"] != b["status"]:
+            diff = "verdict: split %s %s, unsplit %s %s" % (a["status"], a.get("errors", a.get("where", "")), b["status"],
+                                                          b.get("errors", b.get("where", "")))
+        elif a["status"] == "ok":
+            diff = _first_diff(dict(tree=a["tree"], identities=a["identities"]), dict(tree=b["tree"], identities=b["identities"]))
+            if not diff and (a["treeviol"] or b["treeviol"]):
+                stats["include_treeviol"] = stats.get("include_treeviol", 0) + 1
+        if diff:
+            viol += 1
+            if viol <= 3:
+                res.violation("include is not inline: split and unsplit module differ: %s" % diff[:400],
+                              dict(kind="include", split=go_lines[2 * k], unsplit=go_lines[2 * k + 1],
+                                   texts=[render_family_module(m) for m in f["split"]]))
+        if not f["rich"]:
+            for which, gl, ml_l, case in (("split", gs, ml[mi], ml_lines[mi]), ("unsplit", gu, ml[mi + 1], ml_lines[mi + 1])):
+                st, canon, _j = sg.canon_go(gl)
+                mo = ml_l.split(" ")[0]
+                ok = (mo == "err" and st in ("err", "loaderr")) or (mo == "ok" and st == "ok" and canon == ml_l)
+                stats["include_model_runs"] += 1
+                if not ok:
+                    viol += 1
+                    if viol <= 3:
+                        res.violation("core model and implementation disagree on the %s schema of an include family: impl=%s model=%s"
+                                      % (which, (canon or st)[:200], ml_l[:200]),
+                                      dict(kind="include-model", case=case, go_case=gl[:0] + (go_lines[2 * k] if which == "split" else go_lines[2 * k + 1])))
+            mi += 2
+    return len(go_lines) + len(ml_lines), fams, go_lines
 
 
 # ------------------------------------------------------------------------------------ run
@@ -284,6 +694,8 @@ def run(res, tier, seed, proof):
             continue
         judge(res, c, g, m, stats)
     metamorphic(res, cases, go, stats)
+    stats.update(include_nested=0, include_model_runs=0)
+    n_inc, fams, inc_lines = run_include(res, tier, rnd, stats)
 
     def nontrivial(c):
         t = c.split()
@@ -298,14 +710,20 @@ def run(res, tier, seed, proof):
         outs[k] = outs.get(k, 0) + 1
     rej = sum(g.split()[0].count("0") for g in go[:len(reg)] if g.startswith("v="))
     cov = dict(
-        evaluations=len(cases), distinct_nontrivial=len({c for c in cases if nontrivial(c)}),
+        evaluations=len(cases) + n_inc,
+        distinct_nontrivial=len({c for c in cases if nontrivial(c)}) + len({l for l in inc_lines[0::2]}),
         rule="registry: every load sequence of length <=3 over 20 headers (module m with all 16 orderings of 0..3 of three "
              "revision dates, submodule m, module mm with/without revision) and of length 4%s over 7 headers, each followed by "
              "15 lookups (module/submodule x bare, three dates, empty date); random histories of 5..12 ops with interleaved "
              "lookups, odd names ('@' inside) and non-date revisions; file chooser: all subsets of 8 core file names as current "
              "directory / plain path element / dir/... element, every near-miss name alone and beside a candidate, as file and "
              "as directory, random nested layouts with 0..4 path elements (missing directories, files as directories, "
-             "the root itself); non-trivial = two headers of one kind and name / two entries sharing the stem"
+             "the root itself); include families: a generated module (groupings, uses, typedefs, identities with bases, "
+             "identityref / typedef-typed leaves, augments, a duplicate name now and then) split at random over 1..3 "
+             "submodules with nested includes vs. the unsplit module, both run through Process on the implementation "
+             "(verdict, module tree with resolved types, identity value lists compared), a third of them typedef/identity-"
+             "free and also run on the core model; non-trivial = two headers of one kind and name / two entries sharing "
+             "the stem / every include family"
              % ("" if tier == "quick" else " and 5"),
         mismatches=mism,
         distribution=dict(registry_cases=len(reg), findfile_cases=len(ff), rejected_adds=rej, findfile_results=outs, **stats),
@@ -318,12 +736,34 @@ def run(res, tier, seed, proof):
         "by name, no symbolic links; lookups by module name (no '/' and no .yang suffix) for the oracle",
         "regexp ^@\\d{4}-\\d{2}-\\d{2}\\.yang$ transcribed as a digit-pattern test; strings.HasPrefix/TrimPrefix/TrimSuffix, "
         "sort.Strings as modelled",
-        "part (c) of C13 (include = inline) is not covered by this check",
+        "part (c): the Coq theorems cover direct includes on the core model (no typedefs/identities: C09, C11); nested "
+        "includes, typedefs, identities and the final forest are covered by the split-vs-unsplit comparison on the "
+        "implementation only; a submodule names only what it or a submodule it includes declares (RFC 6020 visibility)",
     ]
     return cov, assumptions
 
 
 def replay(rep, res):
+    if rep.get("kind") == "include":
+        go = lib.run_go([rep["split"], rep["unsplit"]])
+        a, b = family_obs(go[0]), family_obs(go[1])
+        for t in rep.get("texts", []):
+            print(t)
+        print("split  :", a["status"], a.get("errors", ""))
+        print("unsplit:", b["status"], b.get("errors", ""))
+        if a["status"] != b["status"]:
+            return 1
+        d = _first_diff(dict(tree=a.get("tree"), identities=a.get("identities")),
+                        dict(tree=b.get("tree"), identities=b.get("identities")))
+        print("first difference:", d)
+        return 1 if d else 0
+    if rep.get("kind") == "include-model":
+        go = lib.run_go([rep["go_case"]])[0]
+        ml = lib.run_ml([rep["case"]])[0]
+        st, canon, _j = sg.canon_go(go)
+        print("impl :", (canon or st)[:2000])
+        print("model:", ml[:2000])
+        return 0 if ((ml.split(" ")[0] == "err" and st in ("err", "loaderr")) or canon == ml) else 1
     c = rep["case"]
     go, ml = run_both([c])
     print("case :", c)
